@@ -196,14 +196,31 @@ for _req in ("activate fz", "start fz", "await fz", "start fz as $r\n  match $r.
         )
 
 
+# one flow definition activated with DIFFERENT arguments by two flows (a default-less parameter given by one, omitted by the
+# other): two activations, each bounded by its own activator
+for _first in ("fp", "fq"):
+    TEMPLATES["activated-with-and-without-argument:%s-ends-first" % _first] = (
+        "flow main\n  start fp\n  start fq\n  match Never()\n\n"
+        "flow fz $v\n  start FzAction(v=$v) as $z\n  match Tick()\n  match Never2()\n\n"
+        "flow fp\n  activate fz \"y\"\n  match EndP()\n\n"
+        "flow fq\n  match Later()\n  activate fz\n  match EndQ()\n",
+        ["Later"],
+        (["EndP", "X", "Tick", "EndQ", "FIN"] if _first == "fp" else ["EndQ", "X", "Tick", "EndP", "FIN"]),
+    )
+
+
 def running(fs):
     return getattr(fs.status, "value", str(fs.status)) in ("started", "starting")
+
+
+_SYSTEM_START_ARGS = ("flow_id", "flow_instance_uid", "activated", "source_flow_instance_uid", "source_head_uid", "flow_hierarchy_position", "flow_start_uid")
 
 
 class Shadow:
     def __init__(self):
         self.started_by = {}  # u -> (p, activated, flow_id, stamp)
-        self.activators = {}  # flow_id -> set(instance uid of another flow id)
+        self.activators = {}  # (flow_id, argument signature) -> set(instance uid of another flow id)
+        self.psig = {}  # u -> argument signature of its StartFlow event
         self.starts_of = {}  # flow_id -> number of StartFlow processed
         self.actions = {}  # uid -> dict
         self.fed_finished = {}  # uid -> stamp
@@ -223,12 +240,15 @@ class Shadow:
                 fid = args["flow_id"]
                 act = bool(args.get("activated"))
                 self.started_by[u] = (p, act, fid, stamp)
+                # the arguments the flow was started / activated with: one definition activated with different arguments is
+                # several activations, each with its own activators and its own instance
+                self.psig[u] = tuple(sorted((k, repr(v)) for k, v in args.items() if k not in _SYSTEM_START_ARGS))
                 self.starts_of[fid] = self.starts_of.get(fid, 0) + 1
                 pf = st.flow_states.get(p)
                 pfid = pf.flow_id if pf is not None else (p.split(")")[0][1:] if p and p.startswith("(") else None)
                 if act:
                     if pfid != fid:
-                        self.activators.setdefault(fid, set()).add(p)
+                        self.activators.setdefault((fid, self.psig[u]), set()).add(p)
                     else:
                         self.restarts += 1
         _T["trace"][:] = []
@@ -295,9 +315,9 @@ class Shadow:
                 u = p
             return first, u, None, None
 
-        for fid, acts in self.activators.items():
+        for (fid, psig), acts in self.activators.items():
             any_act = any((a in st.flow_states and running(st.flow_states[a]) and a not in ends) for a in acts)
-            insts = [f for f in st.flow_id_states.get(fid, []) if running(f)]
+            insts = [f for f in st.flow_id_states.get(fid, []) if running(f) and self.psig.get(f.uid, psig) == psig]
             info = []
             for f in insts:
                 _, head, root, stamp = chain(f)
